@@ -133,6 +133,10 @@ def page(rng, groups):
     return rows
 
 
+PAIRS = [('\u201c', '\u201d'), ('\u2018', '\u2019'), ('\u00ab', '\u00bb'), ('\u201e', '\u201c'), ('\u201d', '\u201d'), ('\u2039', '\u203a'),
+         ('[', ']'), ('\u300c', '\u300d'), ('\uff02', '\uff02'), ('\u2033', '\u2033')]
+
+
 def diagram(rng, circles, allow_quotes=False, allow_braces=False, small=False):
     """(kind, rows) - rows never contain a legend; quotes/braces only when allowed"""
     if not small and rng.random() < 0.025:
@@ -192,6 +196,17 @@ def diagram(rng, circles, allow_quotes=False, allow_braces=False, small=False):
     if not ordinary_cells(rows):
         # at least one ordinary cell: an empty drawing has no position
         rows = ['+']
+    if rows and rng.random() < 0.06:
+        # a caption in typographic or other paired punctuation, to the right of a row or below the drawing: ordinary
+        # label characters (only the ASCII double quote delimits quoted text)
+        a, b = rng.choice(PAIRS)
+        cap = a + rng.choice(['fig 1', 'note', 'a', 'see b', 'ab cd']) + b
+        rows = list(rows)
+        if rng.random() < 0.5:
+            y = rng.randrange(len(rows))
+            rows[y] = rows[y] + '  ' + cap
+        else:
+            rows += [''] * rng.choice([1, 2]) + [' ' * rng.randint(0, 6) + cap]
     if allow_quotes and rng.random() < 0.3 and rows:
         y = rng.randrange(len(rows))
         rows = list(rows)
@@ -271,7 +286,9 @@ def bundled_whole(with_legend=False):
     return bundled(strip_legend=not with_legend)
 
 
-TAG_NAMES = ['a', 'b1', 'red', 'bigc', 'w', 'k9', 'q7z', 'abc', 'A', 'Zz', 'n0', 'thick']
+TAG_NAMES = ['a', 'b1', 'red', 'bigc', 'w', 'k9', 'q7z', 'abc', 'A', 'Zz', 'n0', 'thick',
+             # names svgbob's own style sheet uses: a tag may name them too (`{filled}` in a box is how a user fills it)
+             'filled', 'broken', 'solid', 'nofill', 'dashed', 'backdrop', 'svgbob', 'text', 'rect', 'circle']
 
 
 def tagged_shape(rng):
@@ -283,4 +300,23 @@ def tagged_shape(rng):
         inner = ' ' + ' '.join('{' + n + '}' for n in names)
     w = len(inner) + 2
     rows = box(w, 1, inner={0: inner})
+    return rows
+
+
+def annotated_open(rng):
+    """an open figure (a slope, an arrow, an elbow) with a {tag} or a label inside its bounding box: no closed shape"""
+    n = rng.randint(5, 9)
+    note = rng.choice(['{a}', '{a}', '{k9}', 'hi', '{a,b}'])
+    q = rng.randrange(4)
+    if q == 0:
+        rows = [' ' * y + '\\' for y in range(n)]
+        rows[0] = '\\  ' + note
+    elif q == 1:
+        rows = [' ' * (n - 1 - y) + '/' for y in range(n)]
+        rows[n - 1] = '/  ' + note
+    elif q == 2:
+        rows = ['+' + '-' * (n + 3), '|', '|  ' + note, '|']
+    else:
+        rows = [' ' * y + '\\' for y in range(n)] + [' ' * n + 'v']
+        rows[1] = ' \\  ' + note
     return rows
